@@ -27,7 +27,10 @@ type Ev struct {
 	// Build returns the concrete message and the label of the signing key. A nil message means
 	// the event is not enabled in this state.
 	Build func(v View) (sdk.Msg, string)
-	Gov   bool      // executed the way x/gov executes authority messages (no tx, no ante)
+	// Then, when set, returns further messages carried by the same transaction / proposal: they run
+	// after the first one and the whole unit is dropped unless every message succeeds.
+	Then func(v View) []sdk.Msg
+	Gov  bool // executed the way x/gov executes authority messages (no tx, no ante)
 	Fee   sdk.Coins // fee of the transaction (mode B real, mode A emulated)
 	// Custom is a harness-level event (e.g. module export/import restart) executed on a branch in
 	// mode A; histories containing it are not replayed in mode B. ok=false: not enabled here.
@@ -133,7 +136,11 @@ func (w *scnWorker) Apply(s interface{}, evi int, check bool) (explore.Step, []*
 		if msg == nil {
 			return explore.Step{}, nil
 		}
-		next, out = w.w.ExecMsg(st.ctx, msg, harness.ExecOpts{Ante: !ev.Gov, Signer: signer, Fee: ev.Fee})
+		var then []sdk.Msg
+		if ev.Then != nil {
+			then = ev.Then(View{App: w.w.App, Ctx: st.ctx})
+		}
+		next, out = w.w.ExecMsg(st.ctx, msg, harness.ExecOpts{Ante: !ev.Gov, Signer: signer, Fee: ev.Fee, Then: then})
 	}
 	child := &scnState{ctx: next, aux: st.aux}
 	var vs []*explore.Violation
@@ -212,8 +219,15 @@ func RunEventB(scn *Scenario, n *harness.Node, ev *Ev) (sdk.Msg, string, harness
 	if msg == nil {
 		return nil, "", harness.Outcome{}, false
 	}
+	msgs := []sdk.Msg{msg}
+	if ev.Then != nil {
+		msgs = append(msgs, ev.Then(View{App: n.App, Ctx: n.Ctx()})...)
+	}
 	if ev.Gov {
-		return msg, signer, n.GovExec(msg), true
+		return msg, signer, n.GovExecAll(msgs), true
+	}
+	if len(msgs) > 1 {
+		return msg, signer, n.DeliverMsgs(msgs, signer, ev.Fee), true
 	}
 	if n.SigSeam() && isSigMsg(msg) {
 		// The application does not route cfesignature messages: a real transaction must be rejected
